@@ -194,6 +194,11 @@ def msg(*a):
 
 # ---------------------------------------------------------------------------
 
+def _hold(op, env):
+    # the block is only kept open for a while: nothing is issued
+    return Expect([], method='bind-block-held-open')
+
+
 def expect(op, env):
     k = op['op']
     return _OPS[k](op, env)
@@ -541,7 +546,7 @@ def _busm(op, env):
     raise ValueError(m)
 
 
-_OPS = {'synth': _synth, 'group': _group, 'basic_new': _basic_new, 'node': _node,
+_OPS = {'hold': _hold, 'synth': _synth, 'group': _group, 'basic_new': _basic_new, 'node': _node,
         'server': _server, 'buffer': _buffer, 'buf': _buf, 'free_all': _free_all,
         'bufgroup_free': _bufgroup_free,
         'bus': _bus, 'subbus': _subbus, 'busm': _busm}
